@@ -98,7 +98,7 @@ func runGeneric(r *Report, prop string) {
 		r.Note("%s", n)
 	}
 	runLockOrder(r, prop, files)
-	nf, nLock, nErr, nNil, nBound := 0, 0, 0, 0, 0
+	nf, nLock, nErr, nNil, nBound, nRel, nBuf := 0, 0, 0, 0, 0, 0, 0
 	for _, f := range r.P.Funcs {
 		if len(f.Blocks) == 0 {
 			continue
@@ -115,6 +115,8 @@ func runGeneric(r *Report, prop string) {
 		runPooledObjectEscapes(r, g(11), f)
 		runErrorSwallowed(r, g(12), f)
 		nBound += runConstBoundUnchecked(r, g(13), f)
+		nRel += runReleasedBufferEscapes(r, g(14), f)
+		nBuf += runReadAheadDiscarded(r, g(15), f)
 		// G9: every read->write copy loop of the anchored code (discovered by shape: a Read in a loop
 		// whose buffer is handed to a Write in the same loop) keeps the copy-loop obligations
 		Instrs(f, func(in ssa.Instruction) {
@@ -402,6 +404,7 @@ func runGeneric(r *Report, prop string) {
 		r.Fail(g(1), 0, fmt.Sprintf("only %d functions found in the property's anchor files", nf), prop, "generic:floor")
 	}
 	r.Pass(g(13), token.NoPos, fmt.Sprintf("%d constant-bound slice/index operations on strings and slices scanned; each is applied to a value built here with that length, a parameter, or a value whose length is tested on the way", nBound), prop, "generic:const-bound-scan")
+	r.Pass(g(14), token.NoPos, fmt.Sprintf("%d give-backs of a buffer to a pool scanned: none of the buffers is returned, sent or stored in a field before it is given back; %d per-call buffered readers scanned (G15)", nRel, nBuf), prop, "generic:released-buffer-scan")
 	_ = sort.Strings
 	_ = nErr
 	_ = nNil
